@@ -174,8 +174,94 @@ pub fn c01(sc: &Scenario, rr: &RunResult) -> Vec<Violation> {
 // C02
 // ------------------------------------------------------------------------------------------
 
-pub fn c02(_sc: &Scenario, rr: &RunResult) -> Vec<Violation> {
+/// Between the operator chain and the link sits the batcher: every marker (watermark,
+/// FlushAndRestart, Terminate) a producer replica emits must reach each of its links after all the
+/// data it emitted before that marker and before all the data it emitted afterwards.
+fn batcher_order(sc: &Scenario, rr: &RunResult) -> Vec<Violation> {
     let mut out = vec![];
+    for (si, st) in sc.steps.iter().enumerate() {
+        // boundaries on which every data element goes to exactly one link of the producer
+        let positions: &[&str] = match st {
+            Step::Un(_, UnOp::Shuffle) | Step::Un(_, UnOp::Repl(_)) | Step::Un(_, UnOp::Win(..)) => &["pre"],
+            Step::Un(_, UnOp::Gb(f, _)) if matches!(f, GbForm::Fold | GbForm::Reduce | GbForm::RichCounter | GbForm::KeyedMap) => &["pre"],
+            Step::Bin(_, _, BinOp::Merge) | Step::Bin(_, _, BinOp::Zip) => &["preL", "preR"],
+            _ => continue,
+        };
+        let Some(start) = rr.meta.iter().find(|m| m.path == [si] && m.pos == "start") else { continue };
+        let cons_blocks: BTreeSet<u64> = rr.rec.probes.keys().filter(|(p, _)| *p == start.id).map(|(_, c)| c.0).collect();
+        for pos in positions {
+            let Some(pm) = rr.meta.iter().find(|m| m.path == [si] && m.pos == *pos) else { continue };
+            for ((pid, pc), hist) in &rr.rec.probes {
+                if *pid != pm.id {
+                    continue;
+                }
+                // data emitted before each marker, at the producer
+                let mut want: Vec<(u8, i64, usize)> = vec![];
+                let mut n = 0usize;
+                for r in hist {
+                    match r.kind {
+                        K_ITEM | K_TS => n += 1,
+                        K_WM | K_FAR | K_TERM => want.push((r.kind, r.ts, n)),
+                        _ => {}
+                    }
+                }
+                // the same over all links of this producer towards the consumer block
+                let links: Vec<&LinkLog> = rr
+                    .rec
+                    .links
+                    .iter()
+                    .filter(|(k, _)| k.from == *pc && cons_blocks.contains(&k.to.0) && k.prev_block == pc.0)
+                    .map(|(_, l)| l)
+                    .collect();
+                if links.is_empty() {
+                    continue;
+                }
+                let nm = links.iter().map(|l| l.recv.iter().filter(|e| matches!(e.kind, K_WM | K_FAR | K_TERM)).count()).min().unwrap_or(0);
+                for j in 0..nm.min(want.len()) {
+                    let mut got_n = 0usize;
+                    let mut marker = None;
+                    for l in &links {
+                        let mut seen = 0usize;
+                        let mut data = 0usize;
+                        for e in &l.recv {
+                            match e.kind {
+                                K_ITEM | K_TS => data += 1,
+                                K_WM | K_FAR | K_TERM => {
+                                    if seen == j {
+                                        marker = Some((e.kind, e.ts));
+                                        break;
+                                    }
+                                    seen += 1;
+                                }
+                                _ => {}
+                            }
+                        }
+                        got_n += data;
+                    }
+                    let (wk, wts, wn) = want[j];
+                    if marker != Some((wk, wts)) || got_n != wn {
+                        out.push(viol(
+                            "C02",
+                            "batcher-order",
+                            format!(
+                                "producer {:?} (step {}): its marker #{} {}({}) was emitted after {} data elements, but the consumers received {:?} after {} data elements",
+                                pc, si, j, kind_name(wk), wts, wn, marker.map(|m| (kind_name(m.0), m.1)), got_n
+                            ),
+                        ));
+                        return out;
+                    }
+                }
+            }
+        }
+    }
+    out
+}
+
+pub fn c02(sc: &Scenario, rr: &RunResult) -> Vec<Violation> {
+    let mut out = vec![];
+    if rr.outcome.verdict == Verdict::Completed && !rr.rec.hosts.iter().any(|h| h.panicked.is_some()) {
+        out.extend(batcher_order(sc, rr));
+    }
     let completed = rr.outcome.verdict == Verdict::Completed && !rr.rec.hosts.iter().any(|h| h.panicked.is_some());
     for (k, l) in &rr.rec.links {
         if let Some(p) = l.bad_path {
